@@ -2,13 +2,14 @@
 
    kind 0601: input = (view (openfail-path ...) (((when id) ...) ending) capacity chunklen walkfail [transport])
               (transport = how the harness moves the packets, harness/c0607_transport.go; the verdict does not depend on it)
-              impl  = (trace hang overlaps)
+              impl  = (trace hang late (sendoverlaps recvoverlaps))
    trace = events at the boundary of the real fsutil.Send call (harness/c0607_tap.go).
 
    Verdict: the specification holds iff the trace is an accepted complete trace of
    [sender_acc] AND the clauses of the property, recomputed directly on the whole trace
    by the checkers below (which do not use the acceptor), hold AND the call returned
-   without the watchdog.  The trace depends on goroutine scheduling, so there is no single
+   without the watchdog AND Send never had two SendMsg / two RecvMsg calls in flight on the
+   caller's stream (the harness holds chosen sends in flight to provoke an overlap).  The trace depends on goroutine scheduling, so there is no single
    model output: model output := implementation output when the acceptor accepts. *)
 From Coq Require Import List NArith Bool.
 From FS Require Import Sx Model.Path Model.Stat Model.Tree Model.AccEvents Model.SenderAcc.
@@ -169,9 +170,17 @@ Definition clauses (exp : list entry) (tr : list event) : list bool :=
     [c_stats exp ok tr; c_reqs exp ok 0 [] [] tr; c_fin ok tr; c_progress tr; ok || has_cause exp 0 [] tr]
   end.
 
+(* the endpoint never had two SendMsg (nor two RecvMsg) in flight on the caller's stream:
+   counters of the instrumented stream of the harness (c0607_tap.go) *)
+Definition exclusive_calls (ov : sx) : bool :=
+  match ov with
+  | SL [SN so; SN ro] => N.eqb so 0 && N.eqb ro 0
+  | _ => false
+  end.
+
 Definition run_0601 (input impl : sx) : sx :=
   match input, impl with
-  | SL (v :: ofl :: _ :: _ :: _ :: _ :: _), SL [t; SN hang; _] =>
+  | SL (v :: ofl :: _ :: _ :: _ :: _ :: _), SL (t :: SN hang :: _ :: ov :: _) =>
     match dec_view v, sx_list sx_B ofl, sx_list dec_event t with
     | Some view, Some openfail, Some tr =>
       let served := fun e : entry => if mem_bytes (st_path (fst e)) openfail then [] else snd e in
@@ -179,10 +188,10 @@ Definition run_0601 (input impl : sx) : sx :=
       let acc := sender_accepts exp tr in
       let cl := clauses exp tr in
       let accepted := match acc with Some _ => true | None => false end in
-      let holds := accepted && forallb (fun b => b) cl && N.eqb hang 0 in
+      let holds := accepted && forallb (fun b => b) cl && N.eqb hang 0 && exclusive_calls ov in
       let model := if accepted then impl
                    else SL [SB [114; 101; 106]; of_optN (first_reject (sender_acc exp) sinit tr 0)] in  (* "rej" idx *)
-      verdict model impl holds (SL [of_optN (first_reject (sender_acc exp) sinit tr 0); SL (map of_bool cl); SN hang])
+      verdict model impl holds (SL [of_optN (first_reject (sender_acc exp) sinit tr 0); SL (map of_bool cl); SN hang; ov])
     | _, _, _ => v_malformed
     end
   | _, _ => v_malformed
